@@ -322,14 +322,20 @@ def gen_case(rng: random.Random, tier: str, algo: str | None = None, drift: bool
     if drift:
         length = rng.randint(25, 45)
     cap = MAX_MUT_OPS if not drift else 10 ** 6
+    # in a training loop an agent has LEARNED (its optimizers hold state) before it is mutated:
+    # a good share of the histories starts with a learning step of every agent (index -1 = all)
+    if rng.random() < 0.6:
+        ops.append(["learn", -1])
     for _ in range(length):
         x = rng.random()
-        if (x < 0.58 or drift and x < 0.9) and nmut < cap:
+        if (x < 0.52 or drift and x < 0.86) and nmut < cap:
             ops.append(["mut", rng.randrange(size)])
             nmut += 1
-        elif x < 0.70 and nmut < cap:
+        elif x < 0.62 and nmut < cap:
             ops.append(["mutall"])
             nmut += 1
+        elif x < 0.70 or drift and x < 0.92:
+            ops.append(["learn", rng.choice([-1, rng.randrange(size)])])
         elif x < 0.76 and not drift:
             # another kind of mutation on an agent: it must leave the hyper-parameters alone and every
             # optimizer it re-creates must keep stepping with the agent's CURRENT learning rate
@@ -386,6 +392,16 @@ def opt_groups(agent, opt_attr: str) -> list:
         for g in o.param_groups:
             lr = g["lr"]
             out.append(lr.item() if hasattr(lr, "item") else lr)
+    return out
+
+
+def optimizer_state_sizes(agent, opt_attrs) -> dict:
+    """{optimizer attribute: number of parameters the torch optimizer(s) hold state for}"""
+    out = {}
+    for o in opt_attrs:
+        w = getattr(agent, o)
+        inner = w.optimizer if isinstance(w.optimizer, (list, tuple)) else [w.optimizer]
+        out[o] = sum(len(x.state) for x in inner)
     return out
 
 
@@ -525,8 +541,11 @@ def run_case(case: dict):
             a = pop[j]
             snap = snapshot(pop, names, table)
             sh = shared_cfg(a)
+            trained = optimizer_state_sizes(a, opt_attrs)
             with Draws() as d:
                 ret = mut.rl_hyperparam_mutation(a)
+            if a.mut in lr_names and any(trained[o] > 0 for o, l in zip(opt_attrs, lr_names) if l == a.mut):
+                tags.append("lr-mutation-of-trained-optimizer")
             if ret is not a:
                 problems.append(f"{where}: rl_hyperparam_mutation returned a different object")
             pairs = d.pairs(len(hps))
@@ -549,8 +568,12 @@ def run_case(case: dict):
         elif op[0] == "mutall":
             snap = snapshot(pop, names, table)
             shs = [shared_cfg(a) for a in pop]
+            trained_all = [optimizer_state_sizes(a, opt_attrs) for a in pop]
             with Draws() as d:
                 newpop = mut.mutation(pop)
+            for a, tr in zip(newpop, trained_all):
+                if a.mut in lr_names and any(tr[o] > 0 for o, l in zip(opt_attrs, lr_names) if l == a.mut):
+                    tags.append("lr-mutation-of-trained-optimizer")
             pairs = d.pairs(len(hps))
             if len(pairs) != len(pop) or len(newpop) != len(pop):
                 raise InfraError(f"Mutations.mutation made {len(pairs)} draw pairs for {len(pop)} agents")
@@ -566,6 +589,25 @@ def run_case(case: dict):
                 check_mutated(j, a, snap[j], [(i, x) for i, x in enumerate(snap) if i != j], hps, table, where, problems,
                               tags, shs[j])
             tags.append("op-mutall")
+        elif op[0] == "learn":
+            # one real learning step (harness/agents.py builds the batch in the form learn() accepts); the
+            # model is untouched: no hyper-parameter and no optimizer learning rate may move
+            import agents
+            who = list(range(len(pop))) if op[1] < 0 else [op[1] % len(pop)]
+            snap = snapshot(pop, names, table)
+            for j in who:
+                try:
+                    agents.learn_once(pop[j], algo, "vector", seed=(s + 31 * j) % (2 ** 31), n=8)
+                    tags.append("op-learn")
+                except Exception as e:              # whether learn() works at all is not C06's subject
+                    tags.append(f"op-learn-raised-{type(e).__name__}")
+            now = snapshot(pop, names, table)
+            for i in range(len(pop)):
+                if any(not same_value(now[i]["hp"][n], snap[i]["hp"][n]) for n in names):
+                    problems.append(f"{where}: a learning step changed hyper-parameters of agent {i}")
+            trace.append({"op": op, "agents": who,
+                          "optimizer_has_state": [optimizer_state_sizes(pop[j], opt_attrs) for j in who]})
+            # (the dump after every op, below, compares every optimizer lr with the untouched model)
         elif op[0] == "othermut":
             j = op[1] % len(pop)
             kind = op[2]
@@ -666,7 +708,7 @@ def normalize_ops(case: dict) -> dict:
     """agent indices are taken modulo the current population size; write them out"""
     size, ops = case["pop"], []
     for op in case["ops"]:
-        if op[0] in ("mut", "clone", "othermut"):
+        if op[0] in ("mut", "clone", "othermut") or op[0] == "learn" and op[1] >= 0:
             ops.append([op[0], op[1] % size] + list(op[2:]))
             size += op[0] == "clone"
         else:
@@ -760,10 +802,13 @@ def run(chk: Check) -> None:
                 "and non-integral bounds, values inside / on / outside the range; suite population: 10 algorithms "
                 "(DQN CQN NeuralUCB NeuralTS DDPG TD3 PPO MADDPG MATD3 IPPO) built by create_population / "
                 "Algo.population with one shared HyperparameterConfig over random subsets of their numeric "
-                "hyperparameters, then 4-16 ops (mutate one agent | Mutations.mutation(pop) | clone | tournament "
-                "selection), plus long power-of-two drift runs; distinct = distinct (algo, config, ops); "
+                "hyperparameters, then 4-16 ops (real learn() step of one/all agents — 60% of the histories start "
+                "with one, so optimizers hold state when mutated | mutate one agent | Mutations.mutation(pop) | "
+                "another mutation kind | clone | tournament selection), plus long power-of-two drift runs; "
+                "distinct = distinct (algo, config, ops); "
                 "non-trivial = some mutation hit a bound, truncated an int, hit a learning rate used by >= 2 "
-                "optimizers or mutated an agent whose configuration object is shared")
+                "optimizers, mutated the learning rate of an optimizer that already holds state, or mutated an "
+                "agent whose configuration object is shared")
     chk.assumptions = [
         "float arithmetic is exact on the generated dyadic inputs (checked: every product is exactly representable)",
         "torch.randperm / torch.rand are the only random sources of sample() and mutate(); their draws are recorded "
@@ -813,7 +858,8 @@ def run(chk: Check) -> None:
     for _ in range(3 if quick else 25):
         cases.append(gen_case(rng, chk.tier, algo=rng.choice(["DQN", "TD3", "IPPO", "PPO", "DDPG"]), drift=True))
     ndiff = 0
-    interesting = {"clipped", "int-hp", "lr-of-several-optimizers", "shared-config-mutation"}
+    interesting = {"clipped", "int-hp", "lr-of-several-optimizers", "shared-config-mutation",
+                   "lr-mutation-of-trained-optimizer"}
     for idx, case in enumerate(cases):
         diff, problems, tags, impl, model_out, trace = one_case(chk, case)
         chk.case([case["algo"], case["pop"], case["hps"], case["ops"]],
@@ -849,6 +895,12 @@ SELFTEST_INT = {"algo": "DQN", "pop": 1, "via": "create_population",
                 "hps": [{"name": "batch_size", "lo": "1", "hi": "1024", "shrink": "3/4", "grow": "5/4", "dt": "i",
                          "v": "63"}],
                 "ops": [["mut", 0]], "seed": 11}
+
+
+SELFTEST_LEARN = {"algo": "DQN", "pop": 1, "via": "create_population",
+                  "hps": [{"name": "lr", "lo": "1/65536", "hi": "1/16", "shrink": "1/2", "grow": "2", "dt": "f",
+                           "v": "1/1024"}],
+                  "ops": [["learn", 0], ["mut", 0]], "seed": 17}
 
 
 def selftest(chk: Check) -> None:
@@ -915,6 +967,28 @@ def selftest(chk: Check) -> None:
     mm.Mutations.reinit_opt = lambda self, individual, optimizer=None: None
     try:
         must_fail("optimizer not rebuilt after a learning-rate mutation", SELFTEST_OPT)
+    finally:
+        mm.Mutations.reinit_opt = orig_reinit
+
+    # (5) the rebuilt optimizer reloads the old optimizer's state_dict — param_groups (old lr) included —
+    #     once it holds state: only visible when the agent has learned before the mutation
+    import copy as _copy
+
+    def reload_state(self, individual, optimizer=None, **kw):
+        cfgs = [optimizer] if optimizer is not None else list(individual.registry.optimizers)
+        old = {c.name: _copy.deepcopy(getattr(individual, c.name).state_dict()) for c in cfgs}
+        orig_reinit(self, individual, optimizer=optimizer, **kw)
+        for c in cfgs:
+            sds = old[c.name] if isinstance(old[c.name], list) else [old[c.name]]
+            if any(len(sd["state"]) > 0 for sd in sds):
+                getattr(individual, c.name).load_state_dict(old[c.name])
+    mm.Mutations.reinit_opt = reload_state
+    try:
+        must_fail("old optimizer state (with the old lr) reloaded after an lr mutation of a trained agent",
+                  SELFTEST_LEARN)
+        d0, p0, *_ = one_case(chk, {**SELFTEST_LEARN, "ops": [["mut", 0]]})
+        chk.notes.append("self-test: the same fault on a never-trained agent is "
+                         + ("invisible (needs the learn op)" if d0 is None and not p0 else "visible too"))
     finally:
         mm.Mutations.reinit_opt = orig_reinit
 
